@@ -23,7 +23,7 @@ ASSUMPTIONS = [
     'penalty types exercised: the default (quadratic) pair and linear/uniform overrides; k > 0, h = default; iteration 0',
 ]
 BOUNDS = {'quick': dict(nvars='<=4 (and one 12-variable text)', texts=30), 'thorough': dict(nvars='<=4 (and 12-variable texts)', texts=80)}
-BUDGET = {'quick': 300, 'thorough': 1800}
+BUDGET = {'quick': 1800, 'thorough': 1800}
 TOL, REL = 1e-15, 1e-15
 
 
